@@ -15,10 +15,8 @@ RULE = ("cells: generic oblique, near-orthogonal, orthogonal (orthorhombic/tetra
 ASSUMPTIONS = ["successive minima are computed by exhaustive enumeration of the integer box (harness), greedy by rank",
                "lattice equivalence is decided by searching integer matrices N (entries |n| <= 4) with N'GN = G_result to 1e-8",
                "the argument reduce_cell hands to a_to_cell (chosen lattice vectors, as rows or as columns) is recorded by a spy on the module attribute",
-               "open finding C18-transposed-basis is recognised only when the chosen vectors R pass every check and the returned metric equals R'R"]
+               "open finding C18-transposed-basis is recognised from the output alone: the returned metric equals sum v_i v_i' (R'R of the row-stacked basis) for lattice vectors v_i that realise the successive minima and form a basis; the spy on a_to_cell is an auxiliary observation (no floor): an implementation need not call it"]
 FLOORS = {"post:tools.reduce_cell volume": 150, "post:laue.reduce_cell volume": 150,
-          "post:tools.reduce_cell chosen vectors are the shortest non-coplanar lattice vectors": 150,
-          "post:laue.reduce_cell chosen vectors are the shortest non-coplanar lattice vectors": 150,
           "post:tools.reduce_cell same lattice": 150, "post:laue.reduce_cell same lattice": 150}
 FINDING = "C18-transposed-basis"
 _BOX = {}
@@ -75,6 +73,35 @@ def equivalent(G, Gr, tol=1e-8):
             for i2 in np.nonzero(ok)[0]:
                 N = np.column_stack([n0, n1, cands[2][i2]])
                 if abs(abs(np.linalg.det(N)) - 1) < 1e-9:
+                    return True
+    return False
+
+
+def transposed_basis_metric(G, Gr, lam, tol=1e-8):
+    """mechanism of the open finding, recognised from the output alone: the returned metric is sum_i v_i v_i' (= R'R for the
+    row-stacked basis R) of three lattice vectors v_i that DO realise the successive minima and form a basis of the lattice,
+    written in the Cartesian frame of form_a_mat (a along x, b in the xy plane).  The sum does not depend on the order or the
+    signs of the v_i, so only the choice among vectors of equal length is searched."""
+    A = oracle.upper_triangular_factor(G)
+    V = box(3)
+    l2 = np.einsum("ij,jk,ik->i", V, G, V)
+    scale = float(np.max(np.abs(Gr)))
+    cands = []
+    for lm in lam:
+        idx = np.nonzero(np.abs(np.sqrt(l2) - lm) <= 1e-8 * lam[2])[0]
+        # one of each +-pair
+        keep = [i for i in idx if tuple(V[i]) > tuple(-V[i])]
+        if not keep or len(keep) > 24:
+            return False
+        cands.append(keep)
+    for i0 in cands[0]:
+        for i1 in cands[1]:
+            for i2 in cands[2]:
+                N = np.array([V[i0], V[i1], V[i2]])
+                if abs(abs(np.linalg.det(N)) - 1) > 1e-9:
+                    continue
+                R = (A @ N.T).T
+                if np.max(np.abs(R.T @ R - Gr)) <= tol * scale:
                     return True
     return False
 
@@ -148,10 +175,8 @@ def judge(ctx, m, cell, result, R):
     shortest = max(abs(a - b) for a, b in zip(edges, lam5)) <= 1e-8 * lam5[2]
     ok = same and shortest
     finding = None
-    if not ok and R_ok and R is not None:
-        # mechanism of the open finding: the metric returned is R'R (Gram matrix of the columns of the row-stacked basis)
-        if np.max(np.abs(Gr - R.T @ R)) <= 1e-8 * float(np.max(np.abs(Gr))):
-            finding = FINDING
+    if not ok and transposed_basis_metric(G, Gr, lam5):
+        finding = FINDING
     mon.check("post:%s.reduce_cell same lattice" % m, ok, observed=None if ok else r,
               expected=None if ok else "metric N'GN with integer unimodular N and edges = successive minima %s" % ([round(x, 6) for x in lam5],),
               detail=None if ok else {"cell": cell, "lattice_equivalent": bool(same), "edges_are_minima": bool(shortest)}, finding=finding)
